@@ -1,4 +1,6 @@
 import MgpuProofs.C20_Cons3
+import MgpuProofs.C20_ParseLemmas
+import MgpuProofs.C20_TermLemmas
 /-! # C20 — property theorems (NVIDIA trace-driven simulation conserves work and terminates;
     trace parsing round-trips)
 
@@ -46,19 +48,19 @@ def TerminatesAllIdle (legacy : Bool) : Prop :=
 
 /-- the 14 events the engine handles on the pre-fix code for one block with warps {0, 5} on one SM
     with two sub-cores (same order as the real serial engine; reproduced on the real code at t = 7) -/
-def legacyWitness : List Ev := (rounds 20 (init true 1 1 2 [[[0, 5]]], [])).2
+def legacySchedule : List Ev := (rounds 20 (init true 1 1 2 [[[0, 5]]], [])).2
 
-/-- **The code before the fixes violates termination**: after `legacyWitness` nothing is scheduled,
+/-- **The code before the fixes violates termination**: after `legacySchedule` nothing is scheduled,
     the kernel is unfinished and the 5-instruction warp was never dispatched (the SM went to sleep
     because `dispatchThreadblocksToSubcores` returned `false`, and the empty warp never reports). -/
 theorem terminates_all_idle_legacy_refuted : ¬ TerminatesAllIdle true := by
   intro h
-  have := h 1 1 2 [[[0, 5]]] legacyWitness (by decide) (by decide) (by decide) (by decide +kernel)
+  have := h 1 1 2 [[[0, 5]]] legacySchedule (by decide) (by decide) (by decide) (by decide +kernel)
   revert this
   decide +kernel
 
 example :
-    let s := run (init true 1 1 2 [[[0, 5]]]) legacyWitness
+    let s := run (init true 1 1 2 [[[0, 5]]]) legacySchedule
     allAsleep s = true ∧ s.l0.unfin = 1 ∧ (get s.l2 0).undisp = [5] ∧ receivedInsts s = 0 := by
   decide +kernel
 
@@ -68,5 +70,68 @@ theorem progress_flag_honest_legacy_refuted :
     ∃ (s : Sys) (g : Nat), s.legacy = true ∧ awakeOf (tickGpu s g) (.gpu g) = false ∧
       (get (tickGpu s g).l1 g).pOut ≠ (get s.l1 g).pOut :=
   ⟨run (init true 1 1 1 [[[1]]]) [.drv, .c0, .gpu 0], 0, by decide +kernel⟩
+
+/-- **Exclusive hand-out, every run of the repaired code.**  For every shape, trace and interleaving:
+    whenever a warp sits in the incoming buffer of a sub-core (in particular when `processSMMsg`
+    executes `unfinishedInstsCount = msg.Warp.InstructionsCount`), that sub-core has no instruction
+    left and no unreported finished warp — a warp is only ever handed to a free executor, so no
+    instruction count is overwritten and `instsCount − unfinishedInstsCount` is what was executed.
+    (Proved from the invariant "each sub-core is in exactly one place": free list, a message to it,
+    its inbox, busy, its outbox, a completion in the SM's inbox.) -/
+theorem exclusive_handout (G S C : Nat) (trace : List Kernel) (evs : List Ev) (u : Nat) (hu : u < G * S * C)
+    (hne : get (get (run (init false G S C trace) evs).l2 (u / C)).cIn (u % C) ≠ []) :
+    (get (run (init false G S C trace) evs).subs u).rem = 0 ∧
+    (get (run (init false G S C trace) evs).subs u).fin = 0 :=
+  leaf_exclusive G S C trace evs u hu hne
+
+/-- the hypothesis of `exclusive_handout` is met: after these 8 events on 1×1×2 with warps {3,5} the
+    3-instruction warp sits in the inbox of sub-core 0 -/
+example : get (get (run (init false 1 1 2 [[[3, 5]]]) [.drv, .c0, .gpu 0, .gpu 0, .c1 0, .sm 0, .sm 0, .c2 0]).l2 (0 / 2)).cIn (0 % 2)
+    ≠ [] := by decide +kernel
+
+/-- **`parse (render t) = t`, repaired reader.**  For every list of well-formed thread blocks (ids and
+    counts in the `int32` fields, `insts = ` line equal to the number of instruction lines, registers
+    from the register table, addresses/masks/immediates in their field ranges, every address-compression
+    form, memory and non-memory lines, warps with `insts = 0`) and every opcode token without a space:
+    `ReadTrace`'s body parser applied to the serialised lines returns exactly the structure. -/
+theorem parse_render (op : List Char) (hop : OpWF op) (ts : List TBT) (hwf : ∀ t ∈ ts, t.WF) :
+    parseBody false (renderBody op ts) = .ok ts :=
+  parseBody_render op hop ts hwf
+
+/-- single instruction line: `extractInst (render i) = i` -/
+theorem parse_render_inst (op : List Char) (hop : OpWF op) (i : Inst) (wf : i.WF) :
+    extractInst false (renderInst op i) = .ok i :=
+  extractInst_render op hop i wf
+
+/-- a well-formed, non-trivial input of `parse_render`: a memory instruction (address 0x1000) in a
+    one-instruction warp followed by a warp with `insts = 0` -/
+example : ∀ t ∈ [({ id := (3, 0, 1), warps := [{ id := 0, count := 1, insts := [legacyWitness] }, { id := 7 }] } : TBT)],
+    t.WF := by
+  intro t ht
+  simp only [List.mem_singleton] at ht
+  subst ht
+  refine ⟨by decide, by decide, by decide, by decide, by decide, by decide, ?_⟩
+  intro w hw
+  simp only [List.mem_cons, List.mem_nil_iff, or_false] at hw
+  rcases hw with rfl | rfl
+  · refine ⟨by decide, by decide, by decide, by decide, ?_⟩
+    intro i hi
+    simp only [List.mem_singleton] at hi
+    subst hi
+    exact legacyWitness_WF
+  · exact ⟨by decide, by decide, by decide, by decide, by intro i hi; cases hi⟩
+
+/-- **The reader before the fix does not round-trip**: `%x` stops at the `x` of `0x1000`, the
+    memory address of the witness instruction is parsed as 0. -/
+theorem parse_render_legacy_refuted :
+    extractInst true (renderInst "OP".toList legacyWitness) ≠ .ok legacyWitness :=
+  legacy_not_roundtrip_line
+
+/-- **The opcode is lost by parsing** (open finding `C20-opcode-dropped`): two serialised
+    instructions that differ only in the opcode token parse to the same structure (`OpCode = nil`),
+    so no `render` that writes the opcode can be inverted by this parser. -/
+theorem parse_render_opcode_lost (op1 op2 : List Char) (h1 : OpWF op1) (h2 : OpWF op2) (i : Inst) (wf : i.WF) :
+    extractInst false (renderInst op1 i) = extractInst false (renderInst op2 i) := by
+  rw [extractInst_render op1 h1 i wf, extractInst_render op2 h2 i wf]
 
 end C20
